@@ -131,9 +131,10 @@ var propInfo = map[string]struct {
 			"that a lone `order by key asc` may be elided rests on C01 (scan order), not yet claimed",
 		}},
 	"C09": {"proof",
-		"The accumulators count, sum, avg, min and max are proved to be left folds in scan order: Update is exactly one fold step on convertToNumber of the argument's value for the pair (state unchanged when the argument fails to evaluate), Complete reads the documented result out of the state (integer sum unless a float was seen; avg = sum / count as floats; min / max by the integer or float reading), Clone yields the initial state in a fresh object. convertToNumber is evaluated in place (pure).",
+		"The accumulators count, sum, avg, min and max are proved to be left folds in scan order: Update is exactly one fold step on convertToNumber of the argument's value for the pair (state unchanged when the argument fails to evaluate), Complete reads the documented result out of the state (integer sum unless a float was seen; avg = sum / count as floats; min / max by the integer or float reading), Clone yields the initial state in a fresh object. convertToNumber is evaluated in place (pure). The group key of a row is the length-prefixed encoding of its rendered group-by values, which distinct value tuples cannot share (defect D16, repaired).",
 		[]string{
-			"NOT yet covered: the grouping itself (AggregatePlan.prepare/prepareBatch, getAggrKey / batchGetAggrKeys, createAggrRow, next/batch rendering), group_concat, json_arrayagg and quantile; the group key is still a plain concatenation of the rendered values, so distinct tuples such as ('a','bc') and ('ab','c') share a group (defect D16 of DESIGN.md section 6: confirmed on the real code, not yet repaired and not yet detected by a registered obligation)",
+			"group keys are covered (getAggrKey and its batch twin batchGetAggrKeys return gkN = the length-prefixed encoding of the rendered group-by values, proved injective for 1, 2 and 3 group-by columns by lemmas gk_inj1..3 / group_sound1..3 over the cat-cancellation axiom); NOT yet covered: the dispatch from key to row (AggregatePlan.prepare / prepareBatch, createAggrRow, next / batch rendering), group_concat, json_arrayagg and quantile",
+			"axiom cat_cancel (cat(a, b) = cat(a, c) implies b = c, and equal-length prefixes of equal concatenations are equal) and be32 injective below 2^32 are assumed of byte strings; a rendered value longer than 4 GiB is outside the model",
 			"A-EVAL: the value of the aggregate's argument is evalv of the interface contract of Expression.Execute",
 			"floats are uninterpreted (fadd / fdiv / flt): the fold order is the code's, no IEEE fact is used; int64 is mathematical (A-INT)",
 		}},
